@@ -2,3 +2,10 @@ import SJ.Props.C14
 #print axioms SJ.Props.C14.c14_again_once
 #print axioms SJ.Props.C14.c14_depth_bounded
 #print axioms SJ.Props.C14.c14_limit_hit
+#print axioms SJ.Props.C14.c14_utf8
+#print axioms SJ.Props.C14.c14_utf8_at_closing_quote
+#print axioms SJ.Props.C14.c14_no_fuel
+#print axioms SJ.Props.C14.c14_no_fuel_f64_from_parts
+#print axioms SJ.Props.C14.c14_no_fuel_roundtrip
+#print axioms SJ.Props.C14.c14_no_fuel_machine
+#print axioms SJ.Props.C14.c14_no_fuel_literal
